@@ -291,3 +291,98 @@ Proof.
 Qed.
 
 End Package.
+
+(* ================================================================== relative names *)
+(* When does the relative name of an inline type denote the declared type?  Exactly the
+   defect of finding 1: a nested type named like the root message captures the lookup.
+   If no symbol of the file (of length >= 2) ends in the name it starts with, every relative
+   name Root.Path.Name written by the converter resolves to the declared path. *)
+Lemma list_eqb_eq {A} (eqb : A -> A -> bool) (Heq : forall a c, eqb a c = true <-> a = c) l l' :
+  list_eqb eqb l l' = true <-> l = l'.
+Proof.
+  revert l'. induction l as [|x r IH]; destruct l' as [|y s]; cbn; try (split; [discriminate|discriminate]).
+  - split; reflexivity.
+  - rewrite andb_true_iff, Heq, IH. split; [intros [-> ->]; reflexivity|intros H; inversion H; auto].
+Qed.
+
+Lemma sym_mem_in p syms : sym_mem p syms = true <-> In p syms.
+Proof.
+  unfold sym_mem. rewrite existsb_exists. split.
+  - intros (x & Hx & He). apply (list_eqb_eq str_eqb str_eqb_eq) in He. subst. exact Hx.
+  - intros H. exists p. split; [exact H|]. apply (list_eqb_eq str_eqb str_eqb_eq). reflexivity.
+Qed.
+
+Definition capture_free (syms : list (list str)) : Prop :=
+  forall q, In q syms -> (2 <= length q)%nat -> last q [] <> hd [] q.
+
+Definition starts (root : str) (l : list str) : Prop :=
+  match l with [] => True | y :: _ => y = root end.
+
+Lemma starts_app_hd root l x : l <> [] -> starts root l -> hd [] (l ++ x) = root.
+Proof. destruct l; [contradiction|]. intros _ H. exact H. Qed.
+
+Lemma starts_prefix root l x : starts root (l ++ [x]) -> starts root l.
+Proof. destruct l; [intros _; exact I|]. intros H. exact H. Qed.
+
+Theorem resolve_rel_capture_free syms root parts :
+  capture_free syms -> In [root] syms -> In parts syms ->
+  forall scope_rev, starts root (rev scope_rev) ->
+  resolve_rel syms scope_rev root parts = Ok parts.
+Proof.
+  intros Hcf Hroot Hparts. induction scope_rev as [|x outer IH]; intros Hst.
+  - cbn [resolve_rel]. rewrite (proj2 (sym_mem_in _ _) Hroot), (proj2 (sym_mem_in _ _) Hparts). reflexivity.
+  - cbn [resolve_rel]. cbn [rev] in Hst |- *.
+    destruct (sym_mem ((rev outer ++ [x]) ++ [root]) syms) eqn:Hm.
+    + exfalso. apply sym_mem_in in Hm. apply (Hcf _ Hm).
+      * rewrite !app_length. cbn. lia.
+      * rewrite last_last. rewrite (starts_app_hd root (rev outer ++ [x]) [root]); [reflexivity| |exact Hst].
+        destruct (rev outer); discriminate.
+    + apply IH. eapply starts_prefix. exact Hst.
+Qed.
+
+(* the converse is what the refutation witnesses show: with foo.v1.Foo.Foo in the file, the name
+   Foo.X written inside Foo resolves below Foo.Foo *)
+
+(* strings.Split inverts the join of dot-free, non-empty components *)
+Definition nodot (s : str) : Prop := s <> [] /\ forallb (fun c => negb (c =? 46)) s = true.
+
+Lemma split_on_nodot s cur rest :
+  forallb (fun c => negb (c =? 46)) s = true ->
+  split_on 46 (s ++ rest) cur = split_on 46 rest (rev s ++ cur).
+Proof.
+  revert cur. induction s as [|c r IH]; intros cur H; cbn in *; [reflexivity|].
+  apply andb_true_iff in H. destruct H as [Hc Hr]. apply negb_true_iff in Hc. rewrite Hc.
+  rewrite IH by exact Hr. rewrite <- app_assoc. reflexivity.
+Qed.
+
+Lemma split_join_dot parts : parts <> [] -> Forall nodot parts -> split 46 (join dot parts) = parts.
+Proof.
+  unfold split. intros Hne HF. induction HF as [|x r [Hx Hd] Hr IH]; [contradiction|].
+  destruct r as [|y s].
+  - cbn [join]. replace (split_on 46 x []) with (split_on 46 (x ++ []) []) by (rewrite app_nil_r; reflexivity).
+    rewrite split_on_nodot by exact Hd. cbn. rewrite app_nil_r, rev_involutive. reflexivity.
+  - change (join dot (x :: y :: s)) with (x ++ dot ++ join dot (y :: s)).
+    rewrite split_on_nodot by exact Hd. unfold dot. cbn [app split_on N.eqb Pos.eqb].
+    rewrite app_nil_r, rev_involutive. f_equal. apply IH. discriminate.
+Qed.
+
+(* the relative name of an inline type below root, written in a message whose path starts
+   with root, links to the fully qualified name of the declared path *)
+Theorem link_name_inline syms fpkg scope parts root rest :
+  capture_free syms -> parts = root :: rest -> Forall nodot parts ->
+  In [root] syms -> In parts syms -> starts root scope ->
+  link_name syms fpkg scope (rel_name parts) = Ok (abs_name fpkg parts).
+Proof.
+  intros Hcf -> Hnd Hroot Hparts Hst. unfold link_name, rel_name.
+  assert (Hsp : split 46 (join dot (root :: rest)) = root :: rest) by (apply split_join_dot; [discriminate|exact Hnd]).
+  inversion Hnd as [|r0 l0 [Hr0 Hr1] Hl]. subst.
+  destruct (join dot (root :: rest)) as [|c tl] eqn:Ej.
+  - exfalso. destruct root; [apply Hr0; reflexivity|]. destruct rest; discriminate.
+  - assert (Hc : (c =? 46) = false).
+    { destruct root as [|c0 r0']; [exfalso; apply Hr0; reflexivity|].
+      assert (c = c0) by (destruct rest; cbn in Ej; inversion Ej; reflexivity). subst c0.
+      cbn in Hr1. apply andb_true_iff in Hr1. destruct Hr1 as [Hr1 _]. apply negb_true_iff in Hr1. exact Hr1. }
+    rewrite Hc, Hsp. rewrite (resolve_rel_capture_free syms root (root :: rest) Hcf Hroot Hparts).
+    + reflexivity.
+    + rewrite rev_involutive. exact Hst.
+Qed.
